@@ -162,6 +162,8 @@ func (k Keeper) WithdrawEarnedFees(ctx sdk.Context, owner, provider sdk.AccAddre
 		if earnedFees.Equal(ownerEarnedFees) {
 			k.DeleteOwnerEarnedFees(ctx, owner)
 		} else {
+			// rewrite the whole tally: a denom that nets to zero must not keep its old entry
+			k.DeleteOwnerEarnedFees(ctx, owner)
 			k.SetOwnerEarnedFees(ctx, owner, ownerEarnedFees.Sub(earnedFees...))
 		}
 
